@@ -70,7 +70,7 @@ class C10(Check):
         self.rec.unwrap_all()
 
     def budget(self, tier):
-        k = 1 if tier == 'quick' else 20
+        k = 1 if tier == 'quick' else 100
         return {'random': 500 * k, 'strong_outliers': 150 * k, 'maxiter0': 100 * k, 'invvar_none': 60 * k, 'float32': 80 * k}
 
     # ------------------------------------------------------------------ gen
@@ -98,6 +98,11 @@ class C10(Check):
         iv = np.full(n, 1.0 / sig ** 2) * 10 ** g.uniform(-0.3, 0.3, n)
         nout = rng.randint(0, 6) if cls != 'strong_outliers' else rng.randint(1, 5)
         io = g.choice(n, nout, replace=False) if nout else np.array([], dtype=int)
+        if cls == 'strong_outliers':
+            # "clear" outliers: not among the few points at either end of the range, where a single point has leverage ~1
+            # and the spline can follow it (then the documented procedure itself does not reject it)
+            inner = np.argsort(x)[n // 10: n - n // 10]
+            io = g.choice(inner, nout, replace=False)
         amp = g.uniform(8, 60, nout) if cls != 'strong_outliers' else g.uniform(40, 80, nout)
         y[io] += g.choice([-1, 1], nout) * amp / np.sqrt(iv[io])
         zfrac = rng.choice([0, 0.03, 0.1])
@@ -226,7 +231,10 @@ class C10(Check):
                     inv = np.empty(n, dtype=int)
                     inv[np.argsort(np.array(case['x'], dtype=dt), kind='stable')] = np.arange(n)
                     o = inv[o]
-                out.expect(not bool(np.any(m[o])), 'outliers', 'a >= 40 sigma outlier is flagged good', idx=o[m[o]])
+                if bool(np.any(rmask[o])):
+                    out.undecide()          # the documented procedure itself keeps it (leverage): not a "clear" outlier
+                else:
+                    out.expect(not bool(np.any(m[o])), 'outliers', 'a >= 40 sigma outlier is flagged good', idx=o[m[o]])
                 out.count('outliers_flagged', int((~m[o]).sum()))
                 clean = pos.copy()
                 clean[o] = False
